@@ -155,6 +155,7 @@ impl<'a> Minimiser<'a> {
                     Box::new(|s| s.stopped_yields = 0),
                     Box::new(|s| s.cfg_order = 0),
                     Box::new(|s| s.stopped_sleep = 0),
+                    Box::new(|s| s.stopped_timer = None),
                     Box::new(|s| {
                         if let Some(st) = s.stream.as_mut() {
                             st.script.pop();
